@@ -6,11 +6,13 @@ from fractions import Fraction
 
 import numpy as np
 
-from ..core import Op
+from ..core import Op, jkey as core_jkey
 from ..rat import rat, frac
 from .. import evalgen as G
 from .. import leanio
 from .. import tagpool as TP
+from .. import c08_live as L
+from .. import history
 from .. import symtrace as st
 from ..symtrace import Sym
 
@@ -25,7 +27,10 @@ THEOREMS = [_T + n for n in [
     "C08_overlap_iff_affinity_pos", "C08_overlap_symm_total", "C08_geo_matcher_contract", "C08_geo_pairs_overlap",
     "C08_judge_sound", "C08_judge_model", "C08_geo_detection",
     # tag layer (follow-up 2): the class indices come from the model of the encoder (C19); the score clause by tag equality
-    "C08_tags_bridge", "C08_pair_score_is_class_probability", "C08_clip_pair_scores", "C08_classes_are_vocabulary_tags"]]
+    "C08_tags_bridge", "C08_pair_score_is_class_probability", "C08_clip_pair_scores", "C08_classes_are_vocabulary_tags",
+    # calls and histories (follow-up 3): a call as content, every step of every sequence of calls judged on its own
+    "C08_history", "C08_evaluate_bridge", "C08_evaluate_congr", "C08_shared_class_table_not_history_free",
+    "C08_buffer_memo_not_history_free", "C08_positional_binding"]]
 LEVEL_TEXT = ("Lean theorems over the model of evaluate_clip / sound_event_detection hold for all inputs: evaluated clips = "
               "predictions whose clip id is annotated, in order; every annotated and predicted sound event (with or without "
               "geometry) is in exactly one match; the filtered->original index map is the order-preserving injection; a pair "
@@ -41,7 +46,14 @@ LEVEL_TEXT = ("Lean theorems over the model of evaluate_clip / sound_event_detec
               "is the probability the prediction gives to the annotation's class' is proved in terms of tag equality only "
               "(C08_pair_score_is_class_probability: stored score of the last predicted tag equal to the annotation's first "
               "vocabulary tag, 1 - sum over the vocabulary when it has none) and evaluated in that form on every reported pair. "
-              "Ties: the matcher's default buffers (table), symbolic traces of compute_affinity on two boxes, of "
+              "Calls and histories: a call of the library (an evaluation, or a direct call of the matcher with its own "
+              "buffers) is a value carrying content only (Detection.Call); callModel is its answer whatever was called before, "
+              "and C08_history says that an implementation with arbitrary state agrees with it on every sequence of calls iff "
+              "no reachable state changes any single answer; a class table shared by all encoders and a buffered-geometry memo "
+              "that ignores the buffers are proved not history free (concrete two-call witnesses). The history operation runs "
+              "sequences of calls in one process on shared identities and judges every step by callModel alone. "
+              "Ties: the matcher's default buffers and the positional order of the parameters of the four anchored "
+              "functions (tables; C08_positional_binding), symbolic traces of compute_affinity on two boxes, of "
               "compute_affinity_in_time and of evaluate_sound_event's score/affinity (all inputs), differential runs of "
               "sound_event_detection, evaluate_clip and iterate_over_valid_clips against both layers.")
 LEVEL_NOTE = ("Trusted: Lean kernel; scipy's assignment (only its pairs enter the model; contract ValidAssignment evaluated "
@@ -50,11 +62,18 @@ LEVEL_NOTE = ("Trusted: Lean kernel; scipy's assignment (only its pairs enter th
               "(points, lines, polygons) the affinity is a monitored measurement with shapely, not a model value. "
               "Unmodelled: binary64 rounding of the means (dyadic scores: clip score is one correctly rounded division; "
               "overall score within 2^-40) and of the affinity (compared within 2^-40); scikit-learn behind the run-level "
-              "metrics (C09). evaluate_clip's loop itself is tied by generator-bounded correspondence.")
+              "metrics (C09). evaluate_clip's loop itself is tied by generator-bounded correspondence. Histories: the "
+              "theorem quantifies over all states and all sequences of calls; which states the real code can reach is "
+              "explored by generated sequences only (revisions of one kind at a time on the same live objects, each way of "
+              "revising, random mixtures); geometry objects are only ever derived (model_copy), never assigned to, because "
+              "the library documents them as immutable.")
 TECHNIQUE = ("Lean 4 proof over a two-layer model (matcher as parameter under a proved-sufficient contract; matcher inside "
              "the model around the solver's pairs); table and symbolic-trace obligations regenerated from the source; "
              "end-to-end and per-clip differential correspondence, exhaustive small scopes; Lean-side judge of every "
-             "reported pair by closed-form overlap; executable property monitor on the real results")
+             "reported pair by closed-form overlap; executable property monitor on the real results; sequences of "
+             "calls in one process (reuse after in-place edits / model_copy / copy, other vocabularies, other buffers, "
+             "poisoned and re-read results, argument snapshots) judged step by step by the pure model; failing inputs "
+             "re-run in a new interpreter so that the first replay is self-contained")
 RULE = ("sound_event_detection end to end (0-4 evaluated clips, 0-4 annotated and predicted events per clip, geometry "
         "present/absent, boxes on a grid identical / overlapping / touching / disjoint along one or both axes / far apart, "
         "time intervals, time stamps, points, lines and polygons on the same grid, vocabularies of 1-6 tags over the legacy "
@@ -63,19 +82,48 @@ RULE = ("sound_event_detection end to end (0-4 evaluated clips, 0-4 annotated an
         "near misses outside the vocabulary; always as new objects), detection confidences 0 / 1/4 / 1/2 / 1, clip-level "
         "tags, twin clips (same recording and time window, other uuid), "
         "dyadic or one-hot non-dyadic scores with sum <= 1), evaluate_clip on exhaustive small clips, clip pairing on all "
-        "small id lists; non-trivial = a result with at least one match; distinct = distinct (operation, input)")
+        "small id lists and one list of 1100 clips; construction / passing styles on a third of the random cases (positional "
+        "and mixed calls, tuples, ints and numpy scalars, objects from model_validate(dict) / model_validate_json / "
+        "model_copy (shallow, deep), subclass instances of geometries / clips / sound events, one shared object per "
+        "distinct geometry or tag, a prediction carrying the uuid (and SoundEvent) of an annotation); boundaries: boxes and "
+        "intervals that overlap an annotated one by 2^-20 .. 2^-40, touch it exactly, miss it by as much, or differ from it by "
+        "as much, along time or frequency, at times up to 2^17 s and frequencies up to 2^20 Hz; decimal (non-dyadic) grids, "
+        "coordinates handed to the model as the exact rationals of the floats: every [a, b] against [b, c] on k/10 (660 clips, "
+        "interval / interval and interval / box: exactly touching, no shared time) and random time-only pairings touching, one "
+        "or two ulps apart or over each other; buffered geometry types "
+        "(time stamps, points, lines, multi points / lines / polygons) at dyadic offsets around twice the buffers; sizes: clips "
+        "with 17, 260 and 33 x 32 (>= 1024 pairs) sound events on a lattice with several frequency rows; direct calls of "
+        "the matcher with eight buffer settings (keyword, positional, defaults) and of its sibling entry point "
+        "compute_affinity; histories (detection_history): 160 / 1600 "
+        "sequences of 3-5 calls in one process - half of them directed (x, a neighbour of x of one kind on the same live "
+        "objects revised one way, x again: kind in {other vocabulary, moved / added / removed / re-tagged / geometry-less sound "
+        "event, direct matcher / compute_affinity call with other buffers} x way in {in place, model_copy(update), deep model_copy(update), "
+        "copy.copy + assignment}), half random mixtures with fresh steps under stable uuids (revised content under the same "
+        "uuid) - every step judged on its own by the model, arguments snapshotted around every call, returned evaluations "
+        "poisoned in place and earlier live results read again after later calls; "
+        "non-trivial = a result with at least one match; distinct = distinct (operation, input)")
 TRUSTED = ["scipy.optimize.linear_sum_assignment behind match_geometries: contracts MatcherCover and ValidAssignment evaluated on every answer",
            "shapely/GEOS: exact on rectangles (trace stub); measured directly for points, lines and polygons (monitored contract)",
            "harness: the content of a tag (every field of its term, its value) is read from the fields of an object built "
            "like the ones handed to the code; class indices and expected pair scores come from the Lean model of the "
-           "encoder, never from the library's encoder"]
+           "encoder, never from the library's encoder",
+           "harness: the pairs of the assignment solver are read from a second call of the real matcher on new objects "
+           "(the solver's freedom; only positions, never affinities, enter the geometry layer); buffer_geometry / "
+           "geometry_to_shapely (C11 / C05) prepare the shapes of the measured contract for types without closed form",
+           "triage: a failing input is run again by harness/c08_worker.py in a new interpreter and judged by the same "
+           "monitor; this only orders the replays, it never removes a failure"]
 ASSUMPTIONS = ["clip ids pairwise distinct within the prediction list and within the annotation list",
                "binary64 sums of the generated scores are exact (dyadic grids, or one non-dyadic float32 score per event)",
                "the predicted scores of one sound event over the vocabulary sum to at most 1",
                "the vocabulary is a list of pairwise different tags and the predicted tags of one sound event are pairwise "
                "different tags (difference = any field of the term or the value)"]
 NOT_COMPARED = ["run-level metrics and per-match metric lists (property C09)", "order of the matches within a clip",
-                "error messages, uuids"]
+                "error messages, uuids",
+                "which overlapping pairs the matcher chooses or leaves out on one call (C07's optimality); in a history the "
+                "answer of a call must still be the answer for its content (the solver's pairs are taken from the same "
+                "content on new objects)",
+                "the library's own compute_affinity is no longer consulted as a second opinion on reported affinities "
+                "(closed form in Lean or direct measurement, within 2^-40)"]
 
 
 # ---------------------------------------------------------------- geometry layer
@@ -216,6 +264,15 @@ def _compare_geo(inp, io, mo):
                              affinity_what="the geometric affinity (intersection over union) of the paired sound events")
 
 
+def _gshow(g):
+    """coordinates for a message: short rationals as they are, long ones (exact values of decimal floats) as floats"""
+    def show(x):
+        if isinstance(x, (list, tuple)):
+            return [show(v) for v in x]
+        return x if len(str(x)) <= 12 else repr(float(frac(x)))
+    return show(g["coordinates"] if isinstance(g, dict) else g)
+
+
 def _judge_clip(ctx, clip, pe, ae, matches):
     """'a prediction is paired with an annotation only if their geometries overlap', decided without the
     library's affinity: end-point comparisons in Lean (C08_judge_sound) where a closed form exists, a direct
@@ -237,9 +294,8 @@ def _judge_clip(ctx, clip, pe, ae, matches):
             return f"a sound event without geometry is paired (clip {clip} match {(i, j)})"
         g1, g2 = pe[i]["geom"], ae[j]["geom"]
         if v == "disjoint":
-            return (f"paired sound events do not overlap: {_gtype(g1)} {g1 if not isinstance(g1, dict) else g1['coordinates']} and "
-                    f"{_gtype(g2)} {g2 if not isinstance(g2, dict) else g2['coordinates']} share no time-frequency region "
-                    f"(clip {clip} match {(i, j)}, reported affinity {G._fl(x['affinity'])})")
+            return (f"paired sound events do not overlap: {_gtype(g1)} {_gshow(g1)} and {_gtype(g2)} {_gshow(g2)} share no "
+                    f"time-frequency region (clip {clip} match {(i, j)}, reported affinity {G._fl(x['affinity'])})")
         if v == "overlap":
             want = frac(_model(ctx, "affinity_cf", {"tb": rat(tb), "fb": rat(fb), "g1": G.geom_json(g1),
                                                   "g2": G.geom_json(g2)})["affinity"])
@@ -278,25 +334,31 @@ def _canon_matches(matches, pidx, aidx, metrics=False):
     return ms
 
 
-def _impl_detection(inp):
-    """`sound_event_detection` end to end; matches are located in the clips that were handed in"""
-    preds, anns, tags = G.build(inp)
-    with warnings.catch_warnings():
-        warnings.simplefilter("ignore")
-        ev = G.task_fn("sound_event_detection")(clip_predictions=preds, clip_annotations=anns, tags=tags)
+def _canon_detection(inp, pos, ev):
+    """an Evaluation as the property reads it; matches are located in the clips that were handed in (`pos`: uuid ->
+    position per side and clip, frozen when the arguments were built)"""
     clip_ids = {c.uuid: i for i, c in G._base()["clips"].items()}
-    pin = {c["clip"]: p for c, p in zip(inp["predictions"], preds)}
-    ain = {c["clip"]: a for c, a in zip(inp["annotations"], anns)}
     clips = []
     for ce in ev.clip_evaluations:
         cid = clip_ids.get(ce.annotations.clip.uuid, "foreign")
         pcid = clip_ids.get(ce.predictions.clip.uuid, "foreign")
-        pidx = _positions(pin[pcid].sound_events, "p") if pcid in pin else {}
-        aidx = _positions(ain[cid].sound_events, "a") if cid in ain else {}
         clips.append({"clip": cid, "pclip": pcid, "metrics": G._features(ce.metrics), "score": G._num(ce.score),
-                      "matches": _canon_matches(ce.matches, pidx, aidx, metrics=True)})
+                      "matches": _canon_matches(ce.matches, pos["p"].get(pcid, {}), pos["a"].get(cid, {}), metrics=True)})
     return {"val": {"task": ev.evaluation_task, "metrics": G._features(ev.metrics), "score": G._num(ev.score),
                     "clips": clips}}
+
+
+def _impl_detection(inp):
+    """`sound_event_detection` end to end; with `inp["style"]` the arguments are built and passed in one of the
+    other legitimate ways (harness/c08_live.py)"""
+    if inp.get("style"):
+        args = L.build(inp)
+        return _canon_detection(inp, args["pos"], L.call_detection(args))
+    preds, anns, tags = G.build(inp)
+    with warnings.catch_warnings():
+        warnings.simplefilter("ignore")
+        ev = G.task_fn("sound_event_detection")(clip_predictions=preds, clip_annotations=anns, tags=tags)
+    return _canon_detection(inp, L.positions(inp, preds, anns), ev)
 
 
 def _to_model_detection(inp):
@@ -424,11 +486,8 @@ def _holds_detection_inner(ctx, inp, io):
                 p, a = pe[x["src"]], ae[x["tgt"]]
                 if p["geom"] is None or a["geom"] is None:
                     return f"a sound event without geometry is paired (clip {c['clip']} match {(x['src'], x['tgt'])})"
-                real = G.affinity(p["geom"], a["geom"])
-                if not real > 0:
-                    return f"paired sound events do not overlap: affinity {float(real)} (clip {c['clip']} match {(x['src'], x['tgt'])})"
-                if aff != real:
-                    return f"match affinity is not the geometric affinity: {float(aff)} instead of {float(real)} (clip {c['clip']} match {(x['src'], x['tgt'])})"
+                if not aff > 0:
+                    return f"paired sound events with affinity {float(aff)} (clip {c['clip']} match {(x['src'], x['tgt'])})"
                 want = wants[(c["clip"], x["src"], x["tgt"])]
                 if sc != want:
                     return f"match score is not the probability of the annotation's class: {sc} instead of {want} (clip {c['clip']} match {(x['src'], x['tgt'])})"
@@ -456,10 +515,18 @@ def _impl_eval_clip(inp):
     from soundevent.evaluation.encoding import create_tag_encoder
     full = {"task": "sound_event_detection", "vocab": inp["vocab"], "tagpool": inp.get("tagpool"),
             "predictions": [{"clip": 0, "events": inp["preds"]}], "annotations": [{"clip": 0, "events": inp["anns"]}]}
-    preds, anns, tags = G.build(full)
+    style = inp.get("style") or {}
+    if style:
+        args = L.build(full, style)
+        preds, anns, tags = args["preds"], args["anns"], args["tags"]
+    else:
+        preds, anns, tags = G.build(full)
     with warnings.catch_warnings():
         warnings.simplefilter("ignore")
-        ys, rows, ce = D.evaluate_clip(clip_annotations=anns[0], clip_predictions=preds[0], encoder=create_tag_encoder(tags))
+        if style.get("call") == "pos":
+            ys, rows, ce = D.evaluate_clip(anns[0], preds[0], create_tag_encoder(tags))
+        else:
+            ys, rows, ce = D.evaluate_clip(clip_annotations=anns[0], clip_predictions=preds[0], encoder=create_tag_encoder(tags))
     pidx = _positions(preds[0].sound_events, "p")
     aidx = _positions(anns[0].sound_events, "a")
     entries = []
@@ -533,17 +600,162 @@ def _holds_eval_clip(ctx, inp, io):
 def _impl_pair_clips(inp):
     from soundevent import data
     from soundevent.evaluation.tasks.common import iterate_over_valid_clips
-    preds = [data.ClipPrediction(clip=G.clip(i)) for i in inp["predictions"]]
-    anns = [data.ClipAnnotation(clip=G.clip(i)) for i in inp["annotations"]]
+    style = inp.get("style") or {}
+    cp, ca = data.ClipPrediction, data.ClipAnnotation
+    if style.get("sub"):
+        cp, ca = L._subclass(cp), L._subclass(ca)
+    preds = [cp(clip=G.clip(i)) for i in inp["predictions"]]
+    anns = [ca(clip=G.clip(i)) for i in inp["annotations"]]
     ids = {c.uuid: i for i, c in G._base()["clips"].items()}
+    pin, ain = (tuple(preds), tuple(anns)) if style.get("seq") == "tuple" else (preds, anns)
+    if style.get("call") == "pos":
+        it = iterate_over_valid_clips(pin, ain)
+    else:
+        it = iterate_over_valid_clips(clip_predictions=pin, clip_annotations=ain)
     out = []
-    for a, p in iterate_over_valid_clips(clip_predictions=preds, clip_annotations=anns):
+    for a, p in it:
         if a.clip.uuid != p.clip.uuid:
             return {"val": "pair of different clips"}
         if not any(a is x for x in anns) or not any(p is x for x in preds):
             return {"val": "pair with an object that is not in the input"}
         out.append(ids[p.clip.uuid])
+    if len(pin) != len(preds) or len(ain) != len(anns) or any(x is not y for x, y in zip(pin, preds)):
+        return {"val": "the input lists were changed"}
     return {"val": out}
+
+
+# ---------------------------------------------------------------- direct calls of the matcher (other buffers)
+_MATCH_CALLS = {}
+
+
+def _match_buffers(inp):
+    tb0, fb0 = _buffers()
+    return (float(frac(inp["tb"])) if inp.get("tb") is not None else tb0,
+            float(frac(inp["fb"])) if inp.get("fb") is not None else fb0)
+
+
+def _impl_match(inp):
+    return L.canon_match(L.call_match(L.build_match(inp)))
+
+
+def _match_again(inp):
+    """the matcher once more on new objects with the same buffers: only the pairs are used (the solver's freedom)"""
+    tb, fb = _match_buffers(inp)
+    key = (tuple(G.gkey(g) for g in inp["src"]), tuple(G.gkey(g) for g in inp["tgt"]), tb, fb)
+    if key not in _MATCH_CALLS:
+        if len(_MATCH_CALLS) > 5000:
+            _MATCH_CALLS.clear()
+        out = L.canon_match(L.call_match(L.build_match({"src": inp["src"], "tgt": inp["tgt"], "tb": rat(Fraction(tb)),
+                                                         "fb": rat(Fraction(fb))})))["val"]
+        _MATCH_CALLS[key] = [[s, t] for s, t, _ in out if s is not None and t is not None]
+    return copy.deepcopy(_MATCH_CALLS[key])
+
+
+def _to_model_match(inp):
+    tb0, fb0 = _buffers()
+    tb, fb = _match_buffers(inp)
+    measured = [["0" if _both_closed(g1, g2) else rat(measured_affinity(g1, g2, tb, fb)) for g2 in inp["tgt"]]
+                for g1 in inp["src"]]
+    return {"call": "match", "tb0": rat(tb0), "fb0": rat(fb0), "tb": rat(Fraction(tb)), "fb": rat(Fraction(fb)),
+            "src": [G.geom_json(g) for g in inp["src"]], "tgt": [G.geom_json(g) for g in inp["tgt"]],
+            "pairs": _match_again(inp), "measured": measured}
+
+
+def _mkey(e):
+    return (-1 if e[0] is None else e[0], -1 if e[1] is None else e[1])
+
+
+def _compare_match(inp, io, mo):
+    if "raise" in io or "raise" in mo:
+        a = {k: v for k, v in io.items() if k != "trace"}
+        return None if a == mo else f"implementation {a} but model {mo}"
+    a, b = sorted(io["val"], key=_mkey), sorted(mo["val"], key=_mkey)
+    if [_mkey(e) for e in a] != [_mkey(e) for e in b]:
+        return f"the matcher pairs {[_mkey(e) for e in a]} instead of {[_mkey(e) for e in b]}"
+    for x, y in zip(a, b):
+        if not G.num_eq(x[2], y[2], "tolerance"):
+            return (f"match affinity is not the geometric affinity of the pair under the buffers of the call: "
+                    f"{G._fl(x[2])} instead of {G._fl(y[2])} (match {_mkey(x)})")
+    return None
+
+
+def _holds_match(ctx, inp, io):
+    """a direct call of the matcher: covers both lists once; pairs only what overlaps under the buffers *of this
+    call* (end-point comparisons in Lean where a closed form exists, a shapely measurement otherwise)"""
+    if "raise" in io:
+        return f"match_geometries raised ({io['raise']})"
+    try:
+        tb, fb = _match_buffers(inp)
+        ms = io["val"]
+        if not _model(ctx, "matcher_cover", {"n": len(inp["src"]), "m": len(inp["tgt"]), "matcher": ms}):
+            return "match_geometries does not cover its inputs exactly once with affinities in [0,1] (0 on one-sided entries)"
+        out = _model(ctx, "judge_pairs", {"tb": rat(Fraction(tb)), "pred_geoms": [G.geom_json(g) for g in inp["src"]],
+                                         "ann_geoms": [G.geom_json(g) for g in inp["tgt"]],
+                                         "matches": [[s, t] for s, t, _ in ms]})
+        for i, j, v in out["pairs"]:
+            g1, g2 = inp["src"][i], inp["tgt"][j]
+            if v == "disjoint":
+                return (f"paired geometries do not overlap under time_buffer={tb}: {_gtype(g1)} and {_gtype(g2)} "
+                        f"(match {(i, j)})")
+            if v == "unknown" and not measured_affinity(g1, g2, tb, fb) > 0:
+                return f"paired geometries do not overlap: the prepared shapes have an empty intersection (match {(i, j)})"
+    except leanio.InfraError:
+        raise
+    except Exception as e:  # noqa: BLE001
+        return f"property monitor could not be evaluated on the result: {type(e).__name__}: {str(e)[:200]}"
+    return None
+
+
+# ---------------------------------------------------------------- one call of a history (Lean: Detection.Call)
+def _is_match(inp):
+    return inp.get("kind") == "match"
+
+
+def _call_to_model(inp):
+    if _is_match(inp):
+        return _to_model_match(inp)
+    tb0, fb0 = _buffers()
+    return {**_to_model_geo(inp), "call": "evaluate", "tb0": rat(tb0), "fb0": rat(fb0)}
+
+
+def _call_holds(ctx, inp, io):
+    if _is_match(inp):
+        return _holds_match(ctx, inp, io)
+    if isinstance(io, dict) and io.get("raise") == "invalid" and all_unlabelled(inp):
+        return None        # known finding C08-K1 (no labelled truth: ValueError); the model must raise as well (compare)
+    return _holds_detection(ctx, inp, io)
+
+
+_CALL = Op("call", None, to_model=_call_to_model, model_op="call", mode="tolerance", holds=_call_holds,
+           compare=lambda inp, io, mo: _compare_match(inp, io, mo) if _is_match(inp) else _compare_geo(inp, io, mo))
+
+
+def _h_build(inp):
+    if _is_match(inp):
+        return L.build_match(inp)
+    return L.build(inp, style={**(inp.get("style") or {}), "uuids": "stable"})
+
+
+def _h_call(args):
+    return L.call_match(args) if args["kind"] == "match" else L.call_detection(args)
+
+
+def _h_canon(inp, args, res):
+    return L.canon_match(res) if args["kind"] == "match" else _canon_detection(inp, args["pos"], res)
+
+
+def _h_poison(res):
+    if isinstance(res, list):          # the list of a direct matcher call: the caller's own
+        res.append((0, 0, 0.5))
+        res.reverse()
+        return True
+    return L.poison(res)
+
+
+def _h_nontrivial(h, out):
+    return isinstance(out, dict) and any(isinstance(o, dict) and "val" in o and
+                                         (not isinstance(o["val"], dict) or any(c["matches"] for c in o["val"]["clips"]))
+                                         for o in out.get("steps", []))
 
 
 OPS = {
@@ -555,6 +767,13 @@ OPS = {
                     holds=_holds_eval_clip, mode="round-once"),
     "pair_clips": Op("pair_clips", _impl_pair_clips, compare=lambda inp, io, mo: None if io == {"val": mo} else
                      f"evaluated clips {io} instead of {mo}", mode="exact"),
+    "match_call": Op("match_call", _impl_match, to_model=_to_model_match, compare=_compare_match, holds=_holds_match,
+                     model_op="call", mode="tolerance",
+                     nontrivial=lambda inp, out: "val" in out and any(s is not None and t is not None for s, t, _ in out["val"])),
+    # sequences of calls in one process on shared identities (HISTORIES.md; Lean: C08_history)
+    "detection_history": history.history_op("detection_history", _CALL, _h_build, _h_call, _h_canon,
+                                            snapshot=L.snapshot, modify=L.retarget, poison=_h_poison,
+                                            nontrivial=_h_nontrivial),
 }
 
 
@@ -760,6 +979,466 @@ def _pair_cases(rng, n):
         yield {"predictions": p, "annotations": a}
 
 
+# ---------------------------------------------------------------- construction / passing styles (HISTORIES.md 2)
+_STYLE_AXES = (("call", ["pos", "pos2"]), ("seq", ["tuple"]), ("num", ["int", "np"]),
+               ("via", ["validate", "json", "copy", "deepcopy"]))
+
+
+def _style(rng, history=False):
+    st = {}
+    for k, vs in _STYLE_AXES:
+        if rng.random() < 0.45:
+            st[k] = rng.choice(vs)
+    if rng.random() < 0.25:
+        st["sub"] = True
+    if not history:
+        if rng.random() < 0.25:
+            st["share"] = True
+        if rng.random() < 0.25:
+            st["xuuid"] = True
+    return st
+
+
+def _styled(ctx, inp, p=0.35, history=False):
+    if ctx.rng.random() < p:
+        st = _style(ctx.rng, history)
+        if st:
+            inp["style"] = st
+            for k, v in st.items():
+                ctx.tally(f"style:{k}={v}")
+    return inp
+
+
+# ---------------------------------------------------------------- buffered types close to each other, other buffers
+_DT = ["0", "1/256", "1/64", "1/32", "1/4", "1"]          # stamps overlap iff dt < 2 * time_buffer
+_DF = ["0", "64", "256", "1024"]
+_BUFFER_CHOICES = [("1/2", "100"), ("1/16", "1024"), ("1/100", "1000"), ("0", "0"), ("1", "512"), (None, None),
+                   ("1/2", None), (None, "2048")]
+
+
+def _near(rng, kind, t, f):
+    t, f = frac(t), frac(f)
+    if kind == "TimeStamp":
+        return {"type": "TimeStamp", "coordinates": rat(t)}
+    if kind == "Point":
+        return {"type": "Point", "coordinates": [rat(t), rat(f)]}
+    if kind == "MultiPoint":
+        return {"type": "MultiPoint", "coordinates": [[rat(t), rat(f)], [rat(t + Fraction(1, 8)), rat(f + 512)]]}
+    if kind == "LineString":
+        return {"type": "LineString", "coordinates": [[rat(t), rat(f)], [rat(t + Fraction(1, 4)), rat(f + 256)]]}
+    if kind == "MultiLineString":
+        return {"type": "MultiLineString", "coordinates": [[[rat(t), rat(f)], [rat(t + Fraction(1, 4)), rat(f)]],
+                                                           [[rat(t), rat(f + 512)], [rat(t + Fraction(1, 4)), rat(f + 512)]]]}
+    if kind == "TimeInterval":
+        return {"type": "TimeInterval", "coordinates": [rat(t), rat(t + Fraction(1, 4))]}
+    if kind == "MultiPolygon":
+        sq = lambda a, b: [[[rat(a), rat(b)], [rat(a + Fraction(1, 4)), rat(b)], [rat(a + Fraction(1, 4)), rat(b + 256)],  # noqa: E731
+                            [rat(a), rat(b + 256)], [rat(a), rat(b)]]]
+        return {"type": "MultiPolygon", "coordinates": [sq(t, f), sq(t + 1, f + 1024)]}
+    return [rat(t), rat(f), rat(t + Fraction(1, 4)), rat(f + 256)]
+
+
+_NEAR_KINDS = ["TimeStamp", "TimeStamp", "Point", "Point", "LineString", "MultiPoint", "MultiLineString", "TimeInterval",
+               "BoundingBox", "MultiPolygon"]
+
+
+def gen_near(rng):
+    """one or two clips whose sound events are of the buffered geometry types (time stamps, points, lines, multi
+    points / lines) at small dyadic offsets from each other: whether they overlap depends on the buffers"""
+    def make(vocab):
+        preds, anns = [], []
+        nid = 0
+        for c in rng.sample(range(40), rng.choice([1, 1, 2])):
+            pe, ae = [], []
+            for _ in range(rng.choice([1, 1, 2, 3])):
+                t, f = Fraction(rng.randint(1, 16), 2), rng.choice([1000, 2000, 4096])
+                ka, kp = rng.choice(_NEAR_KINDS), rng.choice(_NEAR_KINDS)
+                nid += 2
+                ae.append({"id": nid, "geom": _near(rng, ka, t, f), "tags": G.true_tags(rng, vocab)})
+                if rng.random() < 0.85:
+                    pe.append({"id": nid + 1, "geom": _near(rng, kp, t + frac(rng.choice(_DT)), f + frac(rng.choice(_DF))),
+                               "tags": G.single_label_scores(rng, vocab)})
+            rng.shuffle(pe)
+            preds.append({"clip": c, "events": pe})
+            anns.append({"clip": c, "events": ae})
+        return {"task": "sound_event_detection", "vocab": vocab, "predictions": preds, "annotations": anns}
+    return _pooled(rng, make)
+
+
+def _match_of(rng, x, buffers=None, entry=False):
+    """a direct call of the matcher on the geometries of one evaluated clip of `x`, with other buffers"""
+    ann_by = {c["clip"]: c for c in x["annotations"]}
+    cands = [c for c in x["predictions"] if c["clip"] in ann_by]
+    if not cands:
+        return None
+    c = rng.choice(cands)
+    src = [e["geom"] for e in c["events"] if e["geom"] is not None]
+    tgt = [e["geom"] for e in ann_by[c["clip"]]["events"] if e["geom"] is not None]
+    if not src and not tgt:
+        return None
+    tb, fb = buffers or rng.choice(_BUFFER_CHOICES)
+    out = {"kind": "match", "src": src, "tgt": tgt, "tb": tb, "fb": fb}
+    st = {}
+    if entry and src and tgt:
+        # the sibling entry point on one geometry of each side (it shares whatever state the preparation keeps)
+        out["src"], out["tgt"] = [rng.choice(src)], [rng.choice(tgt)]
+        st["entry"] = "compute_affinity"
+    if rng.random() < 0.5:
+        st["call"] = rng.choice(["pos", "pos2"])
+    if rng.random() < 0.3:
+        st["seq"] = "tuple"
+    if rng.random() < 0.3:
+        st["num"] = rng.choice(["int", "np"])
+    if st:
+        out["style"] = st
+    return out
+
+
+def gen_match(rng):
+    x = gen_near(rng) if rng.random() < 0.7 else gen_geo(rng)
+    return _match_of(rng, x, entry=rng.random() < 0.3) or {"kind": "match", "src": [], "tgt": [], "tb": None, "fb": None}
+
+
+# ---------------------------------------------------------------- boundaries and sizes (HISTORIES.md 4)
+def _eps(rng, mag):
+    """a power of two that is far below every tolerance a careless comparison would use and still exactly
+    representable next to `mag`"""
+    top = 52 - max(1, int(mag).bit_length()) - 3
+    return Fraction(1, 2 ** min(top, rng.choice([20, 30, 36, 40])))
+
+
+def gen_boundary(rng):
+    """an annotated box / interval A and predicted ones that overlap A by a sliver, touch it exactly, miss it by a
+    sliver or differ from it by a sliver, along time or frequency, at small and large magnitudes"""
+    def make(vocab):
+        t0 = Fraction(rng.choice([0, 1, 3, 1024, 131072]))
+        f0 = Fraction(rng.choice([0, 1000, 1 << 20]))
+        w, h = Fraction(rng.choice([1, 2, 8])) / rng.choice([1, 2, 4]), Fraction(rng.choice([512, 1000, 4096]))
+        et, ef = _eps(rng, t0 + 2 * w + 1), _eps(rng, f0 + 2 * h + 1)
+        interval = rng.random() < 0.35
+        A = [t0, f0, t0 + w, f0 + h]
+
+        def enc(b):
+            if interval:
+                return {"type": "TimeInterval", "coordinates": [rat(b[0]), rat(b[2])]}
+            return [rat(v) for v in b]
+        cands = []
+        for d in (-et, 0, et):
+            cands.append([t0 + w + d, f0, t0 + 2 * w + d, f0 + h])                       # after A: sliver / touch / gap
+            if t0 - w + d >= 0:
+                cands.append([t0 - w + d, f0, t0 + d, f0 + h])                            # before A
+            cands.append([t0, f0, t0 + w + d, f0 + h])                                    # A made longer / shorter
+        if not interval:
+            for d in (-ef, 0, ef):
+                cands.append([t0, f0 + h + d, t0 + w, f0 + 2 * h + d])                    # above A
+                cands.append([t0 + w / 2, f0 + h + d, t0 + 3 * w / 2, f0 + 2 * h + d])    # above, half over in time
+            cands.append([t0 + w - et, f0 + h - ef, t0 + 2 * w, f0 + 2 * h])             # corner sliver
+            cands.append([t0 + w + et, f0 + h - ef, t0 + 2 * w, f0 + 2 * h])             # corner: time gap only
+        pe = [{"id": 10 + i, "geom": enc(b), "tags": G.single_label_scores(rng, vocab)}
+              for i, b in enumerate(rng.sample(cands, rng.choice([1, 2, 3])))]
+        ae = [{"id": 1, "geom": enc(A), "tags": G.true_tags(rng, vocab)}]
+        if rng.random() < 0.3:
+            ae.append({"id": 2, "geom": enc(rng.choice(cands)), "tags": G.true_tags(rng, vocab)})
+        c = rng.randint(0, 39)
+        return {"task": "sound_event_detection", "vocab": vocab, "predictions": [{"clip": c, "events": pe}],
+                "annotations": [{"clip": c, "events": ae}]}
+    return _pooled(rng, make)
+
+
+def gen_big(rng, n_pred, n_ann):
+    """one clip with many sound events (sizes at which an implementation could switch strategy: > 16 events,
+    > 256 events, >= 1024 pairs): annotated boxes on a lattice, each prediction over one of them (or in a gap),
+    some without geometry"""
+    def make(vocab):
+        cell = lambda k: (Fraction(2 * (k % 8)), 1000 + 2000 * (k // 8))      # noqa: E731  (8 columns: rows differ in frequency)
+        ae, pe = [], []
+        for j in range(n_ann):
+            t, f = cell(j)
+            ae.append({"id": j, "geom": None if rng.random() < 0.05 else [rat(t), str(f), rat(t + 1), str(f + 1000)],
+                       "tags": G.true_tags(rng, vocab)})
+        for i in range(n_pred):
+            t, f = cell(rng.randrange(max(n_ann, 1)) if rng.random() < 0.8 else n_ann + i)
+            dt = rng.choice([0, Fraction(1, 2), Fraction(1, 4), 1])
+            pe.append({"id": 10000 + i, "geom": None if rng.random() < 0.05 else [rat(t + dt), str(f), rat(t + dt + 1), str(f + 1000)],
+                       "tags": G.single_label_scores(rng, vocab)})
+        return {"task": "sound_event_detection", "vocab": vocab, "predictions": [{"clip": 7, "events": pe}],
+                "annotations": [{"clip": 7, "events": ae}]}
+    return _pooled(rng, make)
+
+
+# ---------------------------------------------------------------- decimal (non-dyadic) grids: exact touching, one ulp
+def _fx(x):
+    """the float the code will see, as the exact rational the model is told: on a decimal grid 0.1 + 0.5 is not 0.6,
+    and whether two time extents touch, miss or overlap by one ulp is a fact about the floats"""
+    return rat(float(x))
+
+
+def _ulp(x, k):
+    import math
+    x = float(x)
+    for _ in range(abs(k)):
+        x = math.nextafter(x, math.inf if k > 0 else -math.inf)
+    return x
+
+
+def _timed(kind, s, e, f=(1000.0, 2000.0)):
+    """a geometry of the given kind whose time extent is exactly [s, e] (floats)"""
+    lo, hi = f
+    if kind == "TimeInterval":
+        return {"type": "TimeInterval", "coordinates": [_fx(s), _fx(e)]}
+    if kind == "Polygon":
+        return {"type": "Polygon", "coordinates": [[[_fx(s), _fx(lo)], [_fx(e), _fx(lo)], [_fx(e), _fx(hi)], [_fx(s), _fx(hi)],
+                                                   [_fx(s), _fx(lo)]]]}
+    if kind == "MultiPolygon":
+        m = (s + e) / 2
+        tri = lambda a, b: [[[_fx(a), _fx(lo)], [_fx(b), _fx(lo)], [_fx(b), _fx(hi)], [_fx(a), _fx(lo)]]]   # noqa: E731
+        return {"type": "MultiPolygon", "coordinates": [tri(s, m), tri(m, e)]}
+    return [_fx(s), _fx(lo), _fx(e), _fx(hi)]
+
+
+_TIMED_KINDS = ["TimeInterval", "TimeInterval", "BoundingBox", "Polygon", "MultiPolygon"]
+
+
+def _decimal_pair(kp, ka, ps, pe, as_, ae, vocab=(0, 1), ptags=None, atags=None):
+    return {"vocab": list(vocab),
+            "preds": [{"id": 1, "geom": _timed(kp, ps, pe), "tags": ptags if ptags is not None else [[0, "3/4"], [1, "1/8"]]}],
+            "anns": [{"id": 2, "geom": _timed(ka, as_, ae), "tags": atags if atags is not None else [0]}]}
+
+
+def _decimal_sweep(top=10, den=10):
+    """every pair of time extents on the grid k / den (as floats) of which one ends exactly where the other starts:
+    [a, b] and [b, c] for all a < b < c <= top, as two intervals (both orders) and as an interval with a box"""
+    for a in range(top + 1):
+        for b in range(a + 1, top + 1):
+            for c in range(b + 1, top + 1):
+                x, y, z = a / den, b / den, c / den
+                yield _decimal_pair("TimeInterval", "TimeInterval", x, y, y, z)
+                yield _decimal_pair("TimeInterval", "TimeInterval", y, z, x, y)
+                yield _decimal_pair("TimeInterval", "BoundingBox", x, y, y, z)
+                yield _decimal_pair("BoundingBox", "TimeInterval", y, z, x, y)
+
+
+def gen_decimal(rng):
+    """one clip, a time-only geometry against any geometry with an exact time extent, on a decimal grid: touching
+    exactly, one or two ulps apart, one or two ulps over each other, and plain overlaps / gaps; mostly one prediction
+    and one annotation, so that the assignment keeps the pair"""
+    def make(vocab):
+        den = rng.choice([10, 10, 100, 3, 7])
+        pe, ae, nid = [], [], 0
+        for _ in range(rng.choice([1, 1, 1, 2])):
+            a, b, c = sorted(rng.sample(range(0, 4 * den), 3))
+            x, y, z = a / den, b / den, c / den
+            r = rng.random()
+            if r < 0.45:
+                first, second = (x, y), (y, z)                                   # touching exactly
+            elif r < 0.7:
+                k = rng.choice([-2, -1, 1, 2])
+                first, second = (x, y), (max(_ulp(y, k), 0.0), z)                 # k ulps apart (k > 0) / over each other
+            elif r < 0.85:
+                first, second = (x, z), (y, z)                                   # nested, common end
+            else:
+                first, second = (x, y), ((y + z) / 2, z)                         # a plain gap
+            if first[0] >= first[1] or second[0] >= second[1]:
+                first, second = (x, y), (y, z)
+            kinds = [rng.choice(["TimeInterval", "TimeInterval", "BoundingBox"]), rng.choice(_TIMED_KINDS)]
+            rng.shuffle(kinds)
+            if rng.random() < 0.5:
+                first, second = second, first
+            nid += 2
+            pe.append({"id": nid, "geom": _timed(kinds[0], *first), "tags": G.single_label_scores(rng, vocab)})
+            ae.append({"id": nid + 1, "geom": _timed(kinds[1], *second), "tags": G.true_tags(rng, vocab)})
+        c = rng.randint(0, 39)
+        return {"task": "sound_event_detection", "vocab": vocab, "predictions": [{"clip": c, "events": pe}],
+                "annotations": [{"clip": c, "events": ae}]}
+    return _pooled(rng, make)
+
+
+# ---------------------------------------------------------------- histories (HISTORIES.md 1)
+def _shift(g, dt):
+    """the geometry moved by `dt` seconds"""
+    if g is None:
+        return None
+    mv = lambda t: rat(frac(t) + dt)                                # noqa: E731
+    if not isinstance(g, dict):
+        return [mv(g[0]), g[1], mv(g[2]), g[3]]
+    k, c = g["type"], g["coordinates"]
+    if k == "TimeStamp":
+        c2 = mv(c)
+    elif k == "TimeInterval":
+        c2 = [mv(c[0]), mv(c[1])]
+    elif k == "BoundingBox":
+        c2 = [mv(c[0]), c[1], mv(c[2]), c[3]]
+    elif k == "Point":
+        c2 = [mv(c[0]), c[1]]
+    elif k in ("LineString", "MultiPoint"):
+        c2 = [[mv(p[0]), p[1]] for p in c]
+    elif k in ("Polygon", "MultiLineString"):
+        c2 = [[[mv(p[0]), p[1]] for p in r] for r in c]
+    else:
+        c2 = [[[[mv(p[0]), p[1]] for p in r] for r in poly] for poly in c]
+    return {"type": k, "coordinates": c2}
+
+
+def _events_of(x):
+    return [(side, ci, ei) for side in ("predictions", "annotations") for ci, c in enumerate(x[side])
+            for ei, _ in enumerate(c["events"])]
+
+
+def _time_typed(g):
+    return isinstance(g, dict) and g["type"] in _TIME
+
+
+def _h_variant_kinds(x, rng):
+    """neighbours of a call, by kind: the same clips with another vocabulary / a moved, added, removed or re-tagged
+    sound event, and direct calls of the matcher on the same geometries with other buffers"""
+    if _is_match(x):
+        out = [{**copy.deepcopy(x), "tb": tb, "fb": fb} for tb, fb in rng.sample(_BUFFER_CHOICES, 3)]
+        return [("buffers", y) for y in out if (y["tb"], y["fb"]) != (x.get("tb"), x.get("fb"))]
+    out = []
+    descs = TP.descriptors(x)
+    ids, v = list(range(len(descs))), list(x["vocab"])
+    cands = []
+    if len(v) > 1:
+        cands += [v[1:], v[:-1], list(reversed(v)), v[1:] + v[:1]]
+    others = [i for i in ids if i not in v]
+    if others:
+        cands += [[rng.choice(others)] + v[1:], v + [rng.choice(others)], rng.sample(others, min(len(others), rng.randint(1, 3)))]
+    cands.append(rng.sample(ids, rng.randint(1, min(len(ids), 5))))
+    for cand in cands:
+        cand = TP.dedupe_ids(descs, cand)
+        if cand and cand != v:
+            out.append(("vocab", {**copy.deepcopy(x), "vocab": cand}))
+    # a vocabulary that shares a *part* of every class with the old one: the same values under other terms, the same
+    # terms under other values, the same labels (a table keyed by a part of the tag would not tell them apart)
+    cont = [TP.content(d) for d in descs]
+    for part in (lambda t: t["value"], lambda t: TP.jkey(t["term"]), lambda t: t["term"].get("label")):
+        twin = []
+        for i in v:
+            alt = [j for j in ids if j != i and part(cont[j]) == part(cont[i]) and TP.jkey(cont[j]) != TP.jkey(cont[i])]
+            twin.append(rng.choice(alt) if alt and rng.random() < 0.8 else i)
+        twin = TP.dedupe_ids(descs, twin)
+        if twin and twin != v and len(twin) == len(v):
+            out.append(("vocab-twin", {**copy.deepcopy(x), "vocab": twin}))
+    evs = _events_of(x)
+    withg = [(s, ci, ei) for s, ci, ei in evs if x[s][ci]["events"][ei]["geom"] is not None]
+    if withg:
+        # sound events that meet a time-only geometry go through other code (bounds instead of shapes): three times as likely
+        def weight(s, ci, ei):
+            other = "annotations" if s == "predictions" else "predictions"
+            mates = [q["geom"] for c in x[other] if c["clip"] == x[s][ci]["clip"] for q in c["events"]]
+            return 3 if _time_typed(x[s][ci]["events"][ei]["geom"]) or any(_time_typed(g) for g in mates) else 1
+        pool = [p for p in withg for _ in range(weight(*p))]
+        for _ in range(4):
+            s, ci, ei = rng.choice(pool)
+            y = copy.deepcopy(x)
+            e = y[s][ci]["events"][ei]
+            other = "annotations" if s == "predictions" else "predictions"
+            partner = [q["geom"] for c in y[other] if c["clip"] == y[s][ci]["clip"] for q in c["events"] if q["geom"] is not None]
+            same = [g for g in partner if _gtype(g) == _gtype(e["geom"]) and G.gkey(g) != G.gkey(e["geom"])]
+            if same and rng.random() < 0.4:
+                e["geom"] = copy.deepcopy(rng.choice(same))                       # now on top of a sound event of the other side
+            else:
+                e["geom"] = _shift(e["geom"], rng.choice([20, 20, Fraction(1, 2), 1, 3]))   # moved (mostly: away)
+            out.append(("moved", y))
+        s, ci, ei = rng.choice(withg)
+        y = copy.deepcopy(x)
+        y[s][ci]["events"][ei]["geom"] = None
+        out.append(("geometry-dropped", y))
+    if evs:
+        s, ci, ei = rng.choice(evs)
+        y = copy.deepcopy(x)
+        del y[s][ci]["events"][ei]
+        out.append(("removed", y))
+        s, ci, ei = rng.choice(evs)
+        y = copy.deepcopy(x)
+        e = copy.deepcopy(y[s][ci]["events"][ei])
+        e["id"] = 5000 + max(q["id"] for side in ("predictions", "annotations") for c in x[side] for q in c["events"])
+        y[s][ci]["events"].insert(rng.randint(0, len(y[s][ci]["events"])), e)
+        out.append(("added", y))
+        s, ci, ei = rng.choice(evs)
+        y = copy.deepcopy(x)
+        e = y[s][ci]["events"][ei]
+        if s == "annotations":
+            e["tags"] = [rng.choice(ids)] if rng.random() < 0.8 else []
+        elif len(e["tags"]) > 1:
+            sc = [q[1] for q in e["tags"]]
+            e["tags"] = [[q[0], w] for q, w in zip(e["tags"], sc[1:] + sc[:1])]
+        else:
+            e["tags"] = [[rng.choice(ids), rng.choice(["1/4", "1/2", "1"])]]
+        out.append(("retagged", y))
+    out = [(k, y) for k, y in out if not all_unlabelled(y)]
+    for _ in range(2):
+        m = _match_of(rng, x)
+        if m is not None:
+            out.append(("matcher-call", m))
+    m = _match_of(rng, x, entry=True)
+    if m is not None and (m.get("style") or {}).get("entry"):
+        out.append(("affinity-call", m))
+    return out
+
+
+def _h_variants(x, rng):
+    return [y for _k, y in _h_variant_kinds(x, rng)]
+
+
+H_KINDS = ("vocab", "vocab-twin", "moved", "geometry-dropped", "removed", "added", "retagged", "matcher-call", "affinity-call", "buffers")
+
+
+def _directed_histories(ctx, base, n):
+    """x, a neighbour of x of a chosen kind on the *same live objects* revised in a chosen way, then x again on
+    those objects: every (kind of revision x way of revising) in turn"""
+    rng = ctx.rng
+    out, k = [], 0
+    combos = [(kind, how) for kind in H_KINDS for how in H_REUSE]
+    tries = 0
+    while len(out) < n and tries < 20 * n:
+        tries += 1
+        kind, how = combos[k % len(combos)]
+        x = rng.choice(base)
+        ys = [y for kk, y in _h_variant_kinds(x, rng) if kk == kind]
+        if not ys:
+            if tries % 7 == 0:
+                k += 1
+            continue
+        k += 1
+        y = rng.choice(ys)
+        seq = [{"inp": copy.deepcopy(x)}, {"inp": copy.deepcopy(y), "reuse": how}, {"inp": copy.deepcopy(x), "reuse": how}]
+        if rng.random() < 0.3:
+            seq[0]["poison"] = True
+        if rng.random() < 0.3:
+            seq.append({"inp": copy.deepcopy(y)})
+        ctx.tally(f"history:directed:{kind}:{how}")
+        out.append({"seq": seq})
+    return out
+
+
+H_REUSE = L.HOWS
+
+
+def gen_histories(ctx, n):
+    rng = ctx.rng
+    base = []
+    for i in range(max(4, n // 2)):
+        r = i % 5
+        x = gen_near(rng) if r in (0, 1) else gen_geo(rng) if r == 2 else gen_detection(rng) if r == 3 else gen_match(rng)
+        if not _is_match(x):
+            if len(x["predictions"]) > 2:
+                keep = {c["clip"] for c in x["predictions"][:2]}
+                x["predictions"] = x["predictions"][:2]
+                x["annotations"] = [c for c in x["annotations"] if c["clip"] in keep] or x["annotations"][:1]
+            if all_unlabelled(x):
+                continue
+            _styled(ctx, x, 0.4, history=True)
+        base.append(x)
+    hs = _directed_histories(ctx, base, n // 2)
+    hs += history.sequences(rng, base, n - len(hs), variants=_h_variants, reuse_hows=H_REUSE, poison=True, length=(3, 5))
+    for h in hs:
+        for st in h["seq"]:
+            ctx.tally("history:" + ("match" if _is_match(st["inp"]) else "evaluate") + ":" + (st.get("reuse") or "fresh")
+                      + ("+poison" if st.get("poison") else ""))
+    return hs
+
+
 # ---------------------------------------------------------------- known findings
 def _f_no_labelled_truth(f, m):
     if f.kind != "property" or not isinstance(f.impl, dict) or f.impl.get("raise") != "invalid":
@@ -774,7 +1453,7 @@ FINDING_MATCHERS = {"detection_no_labelled_truth": _f_no_labelled_truth}
 
 # ---------------------------------------------------------------- run
 def _stage_detection(ctx, n):
-    cases = [gen_detection(ctx.rng) for _ in range(n)]
+    cases = [_styled(ctx, gen_detection(ctx.rng)) for _ in range(n)]
     for c in cases:
         _tag_tallies(ctx, c)
         ctx.tally(f"detection:clips={len(c['predictions'])}/{len(c['annotations'])}")
@@ -791,7 +1470,7 @@ def _stage_clips(ctx, n):
                                        "{none, A, half-overlapping B, touching C, far D, diagonal E}, over the legacy tags "
                                        "and over two classes that differ only in the term's name plus a near miss "
                                        "(other uri) outside the vocabulary")
-    cases = [gen_clip(ctx.rng) for _ in range(n)]
+    cases = [_styled(ctx, gen_clip(ctx.rng)) for _ in range(n)]
     for c in cases:
         _tag_tallies(ctx, {"tagpool": c.get("tagpool"), "vocab": c["vocab"],
                            "predictions": [{"events": c["preds"]}], "annotations": [{"events": c["anns"]}]})
@@ -799,7 +1478,7 @@ def _stage_clips(ctx, n):
 
 
 def _stage_geo(ctx, n):
-    cases = [gen_geo(ctx.rng) for _ in range(n)]
+    cases = [_styled(ctx, gen_geo(ctx.rng)) for _ in range(n)]
     for c in cases:
         for side in ("predictions", "annotations"):
             for pc in c[side]:
@@ -826,12 +1505,23 @@ def _tables(ctx):
 
 
 # ---------------------------------------------------------------- tie 1b: symbolic traces
+_STUB_SERIAL = itertools.count()
+
+
 class _GeomStub:
-    """a geometry stand-in: `.type` and `.coordinates` only"""
+    """a geometry stand-in: `.type` and `.coordinates`; its serialisations are different on every request, so that
+    a cache keyed by the serialised geometry (a correct rewrite) neither fails on the stub nor answers one traced
+    path with the symbolic result of another"""
 
     def __init__(self, type, coordinates):
         self.type = type
         self.coordinates = coordinates
+
+    def model_dump_json(self, *a, **kw):
+        return '{"type": "%s", "stub": %d}' % (self.type, next(_STUB_SERIAL))
+
+    def model_dump(self, *a, **kw):
+        return {"type": self.type, "stub": next(_STUB_SERIAL)}
 
 
 class _AreaOnly:
@@ -1030,23 +1720,223 @@ def _symbolic_ties(ctx):
 
 
 def _stage_pairing(ctx, n):
-    ctx.run_cases(OPS["pair_clips"], list(_pair_cases(ctx.rng, n)))
+    cases = list(_pair_cases(ctx.rng, n))
+    for c in cases[512:]:
+        _styled(ctx, c, 0.4)
+        if "style" in c:
+            c["style"] = {k: v for k, v in c["style"].items() if k in ("call", "seq", "sub")}
+    # a run with many clips (a size at which an implementation could switch strategy)
+    ids = list(range(1000, 2100))
+    ctx.rng.shuffle(ids)
+    cases.append({"predictions": ids, "annotations": ctx.rng.sample(ids, 600) + list(range(3000, 3050)), "style": {"call": "pos"}})
+    ctx.run_cases(OPS["pair_clips"], cases)
     ctx.exhaustive["pair_clips"] = ("all pairs of duplicate-free id lists over {0,1,2} (16 x 16 orders) and over {0, twin of 0, 1} "
                                     "(a twin: another clip over the same recording and time window)")
 
 
+def _stage_boundaries(ctx, n):
+    cases = [_styled(ctx, gen_boundary(ctx.rng), 0.25) for _ in range(n)]
+    ctx.tally("boundary:cases", len(cases))
+    ctx.run_cases(OPS["detection_geo"], cases)
+    near = [_styled(ctx, gen_near(ctx.rng), 0.25) for _ in range(n // 2)]
+    ctx.tally("near:cases", len(near))
+    ctx.run_cases(OPS["detection_geo"], near)
+
+
+def _stage_decimal(ctx, n):
+    sweep = list(_decimal_sweep(10, 10)) + (list(_decimal_sweep(12, 100)) if ctx.thorough() else [])
+    ctx.run_cases(OPS["eval_clip"], sweep)
+    ctx.exhaustive["touching time extents"] = (f"{len(sweep)} clips: [a, b] against [b, c] for all a < b < c on the grid k/10 (k <= 10) as "
+                                               "floats, interval / interval in both orders and interval / box: the pair shares no time")
+    cases = [_styled(ctx, gen_decimal(ctx.rng), 0.2) for _ in range(n)]
+    ctx.tally("decimal:cases", len(cases))
+    ctx.run_cases(OPS["detection_geo"], cases)
+
+
+def _stage_sizes(ctx):
+    sizes = [(17, 3), (3, 18), (260, 2), (33, 32)] + ([(40, 40), (2, 300), (64, 17)] if ctx.thorough() else [])
+    cases = [gen_big(ctx.rng, n, m) for n, m in sizes]
+    for (n, m), c in zip(sizes, cases):
+        ctx.tally(f"size:{n}x{m}")
+    ctx.run_cases(OPS["detection_geo"], cases)
+    ctx.run_cases(OPS["detection"], cases[:2])
+
+
+def _stage_match(ctx, n):
+    cases = [gen_match(ctx.rng) for _ in range(n)]
+    for c in cases:
+        ctx.tally(f"match:buffers={c.get('tb')}/{c.get('fb')}")
+    ctx.run_cases(OPS["match_call"], cases)
+
+
+def _stage_histories(ctx, n):
+    ctx.run_cases(OPS["detection_history"], gen_histories(ctx, n))
+
+
+# ---------------------------------------------------------------- tie 1: positional order of the parameters
+def _signatures(ctx):
+    import importlib
+    import inspect
+    D = importlib.import_module("soundevent.evaluation.tasks.sound_event_detection")
+    C = importlib.import_module("soundevent.evaluation.tasks.common")
+    try:
+        matcher = G._matcher()
+    except Exception:  # noqa: BLE001
+        matcher = None
+    fns = [("sound_event_detection", getattr(D, "sound_event_detection", None), 3), ("evaluate_clip", getattr(D, "evaluate_clip", None), 3),
+           ("match_geometries", matcher, 4), ("iterate_over_valid_clips", getattr(C, "iterate_over_valid_clips", None), 2)]
+    rows, bad = [], []
+    for name, fn, k in fns:
+        if not callable(fn):
+            bad.append(f"{name} no longer exists")
+            continue
+        ps = [q for q in inspect.signature(fn).parameters.values()
+              if q.kind in (inspect.Parameter.POSITIONAL_ONLY, inspect.Parameter.POSITIONAL_OR_KEYWORD)]
+        rows.append((name, [q.name for q in ps[:k]]))
+        if any(q.default is inspect.Parameter.empty for q in ps[k:]):
+            bad.append(f"{name} has further required positional parameters: {[q.name for q in ps[k:]]}")
+    if bad:
+        ctx.pre_failed.append("signatures")
+        ctx.fail("obligation", "signatures", detail="; ".join(bad), extra={"op": "detection"})
+        return
+    import json
+    lit = "[" + ", ".join("(" + json.dumps(n) + ", [" + ", ".join(json.dumps(x) for x in ps) + "])" for n, ps in rows) + "]"
+    ctx.obligation("signatures", f"example : {lit} = SE.Detection.signatures := by decide\n",
+                   {"op": "detection", "extracted": {n: ps for n, ps in rows}})
+
+
+# ---------------------------------------------------------------- triage: which replays are self-contained
+def _fresh_impls(items, timeout=600):
+    """the implementation's outputs on `items` [(op name, input)], each in a new interpreter state
+    (harness/c08_worker.py: one forked child per item); None where that cannot be had"""
+    import json
+    import os
+    import subprocess
+    import sys
+    from ..c08_worker import MARK
+    outs = [None] * len(items)
+    try:
+        p = subprocess.run([sys.executable, "-m", "harness.c08_worker"],
+                           input=json.dumps({"items": [{"op": op, "input": inp} for op, inp in items]}),
+                           cwd=leanio.VERIF, env=dict(os.environ), stdout=subprocess.PIPE, stderr=subprocess.DEVNULL, text=True,
+                           timeout=timeout)
+        for line in p.stdout.splitlines():
+            if line.startswith(MARK):
+                rec = json.loads(line[len(MARK):])
+                outs[rec["k"]] = rec["out"]
+    except Exception:  # noqa: BLE001
+        pass
+    return outs
+
+
+def _judge_again(ctx, op, inp, io):
+    if op.holds is not None:
+        msg = op.holds(ctx, inp, io)
+        if msg:
+            return msg
+    if op.no_model or op.compare is None:
+        return None
+    return op.compare(inp, io, ctx.model(op.model_op, op.to_model(inp)))
+
+
+def _triage(ctx):
+    """The library may carry state from one call to the next; then a failure seen late in this run need not show
+    when its input is replayed alone.  The smallest failing inputs are run once more in a new interpreter and judged
+    again.  One that fails there too is a self-contained replay (its record then carries the fresh observation).
+    One that passes there depends on what was called before: it is listed last, and the history replays - the
+    whole sequence of calls is the input - are checked the same way and listed first.  Nothing is dropped, the
+    verdict does not change."""
+    import sys
+    from .. import core
+    findings = core.load_findings(ctx.pid)
+    me = sys.modules[__name__]
+    fs = [f for f in ctx.failures if f.kind == "property" and f.op in OPS and f.inp is not None
+          and core.match_finding(me, findings, f) is None]
+    if not fs:
+        return
+    size = lambda f: len(core_jkey(f.inp))                     # noqa: E731
+
+    def smallest(cands, k):
+        seen, out = set(), []
+        for f in sorted(cands, key=size):
+            sig = (f.op, f.detail[:40])
+            if sig not in seen:
+                seen.add(sig)
+                out.append(f)
+        return out[:k]
+
+    plain = [f for f in fs if f.op != "detection_history"]
+    hist = sorted((f for f in fs if f.op == "detection_history"), key=size)[:40]
+    batch = smallest(plain, 3) + hist
+    ios = _fresh_impls([(f.op, f.inp) for f in batch])
+
+    def again(f, io):
+        if io is None:
+            return None
+        try:
+            return _judge_again(ctx, OPS[f.op], f.inp, io)
+        except leanio.InfraError:
+            raise
+        except Exception:  # noqa: BLE001
+            return None
+
+    verdicts = [(f, io, again(f, io) if io is not None else None) for f, io in zip(batch, ios)]
+    # histories are only moved to the front when a plain failure turned out to depend on what ran before it (or
+    # there is no plain failure): a plain input that fails on its own is the smaller replay
+    promote = not plain or any(io is not None and not msg for f, io, msg in verdicts if f.op != "detection_history")
+    for f, io, msg in verdicts:
+        if io is None:
+            continue
+        if f.op != "detection_history":
+            if msg:
+                f.detail += " [replay checked: fails in a new interpreter as well]"
+                ctx.tally("triage:self-contained")
+            else:
+                sig = f.detail[:40]
+                for g in plain:
+                    if g.op == f.op and g.detail[:40] == sig:
+                        g.size = (lambda g=g: 10 ** 9 + size(g))       # listed last
+                f.detail += (" [observed in this run only: the same input passes in a new interpreter - the failure "
+                             "depends on what was called before; see the history replays]")
+                ctx.tally("triage:history-dependent")
+        elif msg:
+            f.extra = {**(f.extra or {}), "first_seen_as": f.detail[:300]}
+            f.detail = msg + " [replay checked: this is what a new interpreter shows]"
+            f.impl = io
+            if promote:
+                f.size = (lambda f=f: size(f) // 1000)             # self-contained history: first
+            ctx.tally("triage:self-contained-history")
+        else:
+            f.size = (lambda f=f: 10 ** 9 + size(f))
+            ctx.tally("triage:history-dependent-history")
+
+
 def run(ctx):
     ctx.stage("tables", _tables, ctx)
+    ctx.stage("signatures", _signatures, ctx)
     ctx.stage("symbolic-ties", _symbolic_ties, ctx)
     ctx.stage("discharge", ctx.discharge, ["Proofs.C08", "SoundeventModel.Tactics"])
     ctx.stage("corpus", ctx.run_corpus, OPS)
-    ctx.stage("detection", _stage_detection, ctx, ctx.budget(1200, 12000))
-    ctx.stage("detection-geo", _stage_geo, ctx, ctx.budget(900, 9000))
-    ctx.stage("evaluate_clip", _stage_clips, ctx, ctx.budget(1000, 12000))
+    ctx.stage("detection", _stage_detection, ctx, ctx.budget(1000, 12000))
+    ctx.stage("detection-geo", _stage_geo, ctx, ctx.budget(750, 9000))
+    ctx.stage("evaluate_clip", _stage_clips, ctx, ctx.budget(800, 12000))
     ctx.stage("pairing", _stage_pairing, ctx, ctx.budget(200, 3000))
+    ctx.stage("boundaries", _stage_boundaries, ctx, ctx.budget(300, 4000))
+    ctx.stage("decimal-grids", _stage_decimal, ctx, ctx.budget(300, 4000))
+    ctx.stage("sizes", _stage_sizes, ctx)
+    ctx.stage("matcher-calls", _stage_match, ctx, ctx.budget(250, 3000))
+    # last: direct matcher calls with other buffers inside histories must not colour the plain cases above
+    ctx.stage("histories", _stage_histories, ctx, ctx.budget(160, 1600))
+    ctx.stage("triage", _triage, ctx)
 
 
 def search(ctx, failures):
     ctx.run_cases(OPS["detection_geo"], [gen_geo(ctx.rng) for _ in range(300)])
     ctx.run_cases(OPS["detection"], [gen_detection(ctx.rng) for _ in range(300)])
     ctx.run_cases(OPS["eval_clip"], list(_exhaustive_clips()) + list(_exhaustive_clips(_NEAR_POOL)))
+    ctx.run_cases(OPS["detection_geo"], [gen_boundary(ctx.rng) for _ in range(200)])
+    ctx.run_cases(OPS["eval_clip"], list(_decimal_sweep(10, 10)))
+    ctx.run_cases(OPS["detection_geo"], [gen_decimal(ctx.rng) for _ in range(300)])
+    ctx.run_cases(OPS["match_call"], [gen_match(ctx.rng) for _ in range(200)])
+    ctx.run_cases(OPS["detection_history"], gen_histories(ctx, 120))
+    ctx.stage("triage", _triage, ctx)
